@@ -203,11 +203,11 @@ Proof.
   unfold close_state in Et. set (f := fun k => last_assign asg ls k nilv) in *.
   unfold finish, cat_shape in *. destruct rooted.
   - destruct S as [n1 [c1 [e [x [e0 [n0 [c0 [-> Sx]]]]]]]].
-    rewrite set_lens_unfold in Et. cbn [map set_lens is_tip degree uslots length Nat.eqb] in Et.
+    rewrite set_lens_unfold in Et. cbn [map set_lens] in Et.
     inversion Et; subst. clear Et.
     unfold caterpillar, n_tip_kids, kids, sub_all. cbn [uslots kids_of flat_map app filter snd is_tip degree length Nat.eqb forallb].
     rewrite (spine_cat_sub (tip_name (n - 1))) by (rewrite spine_set_lens; exact Sx).
-    destruct (length (uslots (set_lens f x)) =? 1); reflexivity.
+    repeat match goal with |- context [if ?b then _ else _] => destruct b end; reflexivity.
   - destruct S as [e [x [-> Sx]]].
     rewrite set_lens_unfold in Et. cbn [map] in Et.
     assert (Sx' : spine (tip_name (n - 1)) (set_lens f x) = true) by (rewrite spine_set_lens; exact Sx).
@@ -215,9 +215,9 @@ Proof.
     + (* impossible: a single tip below the root means 2 tips only *)
       exfalso. rewrite E0 in Et. simpl in Et. discriminate.
     + rewrite E0 in Et.
-      rewrite (reroot_first_tip_root _ _ _ _ _ eq_refl) in Et.
-      cbn [replace_up is_tip degree uslots length Nat.eqb] in Et. inversion Et; subst. clear Et.
+      rewrite (reroot_first_tip_root (tip_name 0) _ n0 c0 [Some (e1, x1); None; Some (e2, UNode n2 c2 [None])] eq_refl) in Et.
+      cbn [replace_up] in Et. inversion Et; subst. clear Et.
       unfold caterpillar, n_tip_kids, kids, sub_all. cbn [uslots kids_of flat_map app filter snd is_tip degree length Nat.eqb forallb].
       rewrite (spine_cat_sub _ _ Hx1).
-      destruct (length (uslots x1) =? 1); reflexivity.
+      repeat match goal with |- context [if ?b then _ else _] => destruct b end; reflexivity.
 Qed.
